@@ -52,7 +52,10 @@ class StateSpace:
         ops=("mutate", "crossover"),
         snapshot: Callable[[Any], Any] = genotype_snapshot,
         post: Optional[Callable[[Any, Any], None]] = None,
+        roots: Optional[Callable[[], list]] = None,
     ):
+        self.roots = roots  # further initial genotypes (e.g. found by another search); they come first, so that the
+        # state cap cannot crowd them out
         self.make_rep = make_rep
         self.canon = canon
         self.max_states = max_states
@@ -136,6 +139,11 @@ class StateSpace:
             return fin(rep, rep.create_genotype(src))
 
         frontier = []
+        if self.roots is not None:
+            for g0 in self.roots():
+                i = self._add(g0, ("root", (), ()), 0)
+                if i is not None:
+                    frontier.append(i)
         for ex in self._explore(create):
             if ex.capped:
                 continue
